@@ -1,21 +1,4 @@
 #!/bin/sh
-# tools/seed_all.sh : confirm every seeded change (demo + full test-suite in a scratch worktree) and run its owning quick check; write meta.json
+# tools/seed_all.sh [parallelism] : tools/seed_one.sh for every directory under seeded/
 cd /verif
-for d in seeded/*/; do
-  id=$(basename $d); prop=${id%-*}
-  conf=$(tools/verify_mutant.sh /verif/seeded/$id 2>&1 | tail -1)
-  det=$(tools/mutp.sh $id $prop quick 2>&1)
-  rc=$(echo "$det" | sed -n 's/.*check_rc=\([0-9]*\).*/\1/p' | head -1)
-  clauses=$(echo "$det" | grep '^VIOLATION' | sed 's/.*clause=\([^ ]*\).*/\1/' | sort -u | tr '\n' ' ')
-  echo "$id: $conf | check_rc=$rc | $clauses"
-  /venv/bin/python - "$id" "$prop" "$conf" "$rc" "$clauses" <<'PY'
-import json, sys
-id_, prop, conf, rc, clauses = sys.argv[1:6]
-d = f"/verif/seeded/{id_}"
-readme = open(d + "/README.md").read() if __import__("os").path.exists(d + "/README.md") else ""
-json.dump(dict(id=id_, property=prop, needs_to_manifest=readme.strip()[:2000], confirmed=conf,
-               ran=["tools/verify_mutant.sh: scratch worktree of /repo HEAD; demo.py on the clean tree (expect 0), with patch.diff applied (expect 1); full test-suite with the patch (expect 327 passed, 1 known failure)",
-                    f"tools/mutp.sh {id_} {prop} quick: ./check {prop} --tier quick with VERIF_REPO pointing at a scratch worktree with the patch applied"],
-               detected_by_quick=(rc == "1"), check_exit_code=rc, clauses_reported=clauses.split()), open(d + "/meta.json", "w"), indent=1)
-PY
-done
+ls seeded | xargs -P ${1:-3} -I{} tools/seed_one.sh {}
